@@ -149,7 +149,32 @@ pub enum Space {
     CtxFrags { k: usize, max: usize },
     /// every context prefix of CTX followed by every B16-sequence
     CtxBytes { max: usize },
+    /// every foreign-content context of FCTX followed by every FFRAGS-sequence
+    Foreign { max: usize },
 }
+
+/// Foreign-content contexts (SVG / MathML, and HTML inside their integration points).
+pub const FCTX: &[&str] = &[
+    "<svg>", "<svg><g>", "<math>", "<math><mi>", "<svg><desc>", "<svg><foreignObject>",
+    "<math><annotation-xml encoding=\"text/html\">",
+];
+
+/// Tag fragments for foreign content: names that are ordinary (a), need attributes (font), are
+/// integration points (title, mi), cannot be hashed (x-y, linearGradient: 14 characters,
+/// annotation-xml) x complete / unfinished / self-closing / end-tag shapes, plus a few text-level
+/// fragments.
+pub static FFRAGS: std::sync::LazyLock<Vec<String>> = std::sync::LazyLock::new(|| {
+    let mut v = vec![];
+    for n in ["a", "font", "title", "mi", "x-y", "linearGradient", "annotation-xml"] {
+        for shape in ["<N>", "<N ", "<N b=c>", "<N b=\"c", "<N/>", "</N>", "</N "] {
+            v.push(shape.replace('N', n));
+        }
+    }
+    for t in ["x", "<!--", "-->", "<![CDATA[", "]]>", ">"] {
+        v.push(t.to_string());
+    }
+    v
+});
 
 /// Context prefixes that put the tokenizer into each of its non-initial modes before the
 /// enumerated tail starts (text modes, escaped script data, CDATA, doctype, select, foreign).
@@ -166,6 +191,7 @@ impl Space {
             Space::Bytes { max } => count_upto(B16.len(), max),
             Space::CtxFrags { k, max } => CTX.len() * count_upto(k, max),
             Space::CtxBytes { max } => CTX.len() * count_upto(B16.len(), max),
+            Space::Foreign { max } => FCTX.len() * count_upto(FFRAGS.len(), max),
         }
     }
     pub fn render(&self, i: usize, idx: &mut Vec<usize>, out: &mut Vec<u8>) {
@@ -188,6 +214,14 @@ impl Space {
                 render_bytes(B16, idx, out);
                 out.splice(0..0, CTX[i % CTX.len()].bytes());
             }
+            Space::Foreign { .. } => {
+                seq_at(i / FCTX.len(), FFRAGS.len(), idx);
+                out.clear();
+                out.extend_from_slice(FCTX[i % FCTX.len()].as_bytes());
+                for &k in idx.iter() {
+                    out.extend_from_slice(FFRAGS[k].as_bytes());
+                }
+            }
         }
     }
     pub fn label(&self) -> String {
@@ -196,6 +230,7 @@ impl Space {
             Space::Bytes { max } => format!("B16<={max}"),
             Space::CtxFrags { k, max } => format!("CTXxF{k}<={max}"),
             Space::CtxBytes { max } => format!("CTXxB16<={max}"),
+            Space::Foreign { max } => format!("FCTXxFF<={max}"),
         }
     }
 }
